@@ -543,6 +543,9 @@ func checkC16(d *lib.Driver, c *c16Case) error {
 		for i, got := range []string{exact0, exactH} {
 			if model[i] == "outside" || model[i+2] == "outside" {
 				rep.Count("model.outside", 1)
+				if os.Getenv("VERIF_REFLECT_DEBUG") != "" {
+					fmt.Fprintf(os.Stderr, "OUTSIDE %s %s hist=%v impl=%s tree=%s\n", c.d.RT, c.route, i == 1, got, canonTree(t))
+				}
 				continue
 			}
 			switch got {
